@@ -929,6 +929,9 @@ package parser
 
 //@ func (p *Parser) parseBooleanExpression
 //@   include ParseFrame
+//@   ensures [C02,C18:expr-there] result2 == nil ==> result0 != nil
+//@   ensures [C02,C18:binary-ok] (result2 == nil && typeis(result0, ast.BinaryExpression)) ==> ((as(result0, ast.BinaryExpression).Operator == token.AND || as(result0, ast.BinaryExpression).Operator == token.OR)
+//@        && as(result0, ast.BinaryExpression).Left != nil && as(result0, ast.BinaryExpression).Right != nil)
 // C02: negation flips the operator of the parsed leaf in place; the leaf itself (operand, value, raw-value marker, preamble) is what is returned
 //@   exit [C02:leaf-kept] (result2 == nil && single && old(p.peekToken.Type) != token.LPAREN && !(old(p.peekToken.Type) == token.NOT && old(p.peek2Token.Type) == token.LPAREN)) ==> (typeis(result0, ast.OperatorExpression) && as(result0, ast.OperatorExpression) == lastresult(parseLeafBooleanExpression, 0))
 //@   exit [C02:leaf-left] (result2 == nil && !single && old(p.peekToken.Type) != token.LPAREN && !(old(p.peekToken.Type) == token.NOT && old(p.peek2Token.Type) == token.LPAREN)) ==> lastarg(parseRightSideExpression, 1) == lastresult(parseLeafBooleanExpression, 0)
@@ -943,6 +946,13 @@ package parser
 
 //@ func (p *Parser) parseRightSideExpression
 //@   include ParseFrame
+// what the emitter takes for granted about a condition tree (its BoolWF): a binary node is an '&&' or an '||' of two
+// operands that are there (C02, C18: anything else crashes the lowering)
+//@   ensures [C02,C18:binary-ok] (result2 == nil && typeis(result0, ast.BinaryExpression)) ==> ((as(result0, ast.BinaryExpression).Operator == token.AND || as(result0, ast.BinaryExpression).Operator == token.OR)
+//@        && as(result0, ast.BinaryExpression).Left != nil && as(result0, ast.BinaryExpression).Right != nil)
+//@   requires [C02,C18:left-there] left != nil && (typeis(left, ast.BinaryExpression) ==> ((as(left, ast.BinaryExpression).Operator == token.AND || as(left, ast.BinaryExpression).Operator == token.OR)
+//@        && as(left, ast.BinaryExpression).Left != nil && as(left, ast.BinaryExpression).Right != nil))
+//@   ensures [C02,C18:expr-there] result2 == nil ==> result0 != nil
 // C02: the operand already parsed stays the left operand; under a pending '!(' the operator is the De Morgan dual
 //@   exit [C02:or-shape] (result2 == nil && old(p.curToken.Type) == token.OR) ==> (typeis(result0, ast.BinaryExpression) && as(result0, ast.BinaryExpression).Left == left
 //@        && as(result0, ast.BinaryExpression).Operator == (negated ? token.AND : token.OR) && as(result0, ast.BinaryExpression).Right == right)
@@ -959,6 +969,7 @@ package parser
 
 //@ func (p *Parser) parseLeafBooleanExpression
 //@   include ParseFrame
+//@   ensures [C02,C18:leaf-there] result2 == nil ==> (result0 != nil && fresh(result0))
 //@   ensures [C18:consume-strict] (result2 == nil && (old(p.curToken.Type) != token.EOF || NoNul(p.l.input))) ==> Left(p) < old(Left(p))
 // C02: '!operand' means unset / zero
 //@   exit [C02:not-flag] (result2 == nil && usedNotOperator && (result0.Type == token.FLAG || result0.Type == token.DEFEATED)) ==> (result0.Operator == token.EQ && result0.ComparisonValue == token.FALSE)
